@@ -554,9 +554,13 @@ func gRunCase(t *testing.T, c *gCase) []string {
 					where = append(where, strings.ReplaceAll(strings.TrimSpace(ls[0])+"@"+fn, " ", "_"))
 				}
 			}
-			mu.Lock()
-			out = append(out, fmt.Sprintf("> %d leak %d %s", time.Since(base).Milliseconds(), n, strings.Join(where, ";")))
-			mu.Unlock()
+			// only goroutines running the repository's code count (the census is process-wide: a
+			// runtime or testing goroutine that happens to start meanwhile is not a leak of the session)
+			if len(where) > 0 {
+				mu.Lock()
+				out = append(out, fmt.Sprintf("> %d leak %d %s", time.Since(base).Milliseconds(), len(where), strings.Join(where, ";")))
+				mu.Unlock()
+			}
 		}
 	})
 	return out
